@@ -23,7 +23,7 @@ func families(tier string) []fw.Family {
 		strs := stringsUpTo(tokens, 4)
 		return []fw.Family{
 			familySubsetter(),
-			familyToPath(fmt.Sprintf("text to paths: %d strings of at most 4 tokens x 3 fonts x 4 faces (plain, with offsets, each also faux italic)", len(strs)), strs),
+			familyToPath(fmt.Sprintf("text to paths: %d strings of at most 4 tokens x 3 fonts x 6 faces (plain, with offsets, each also faux italic, two with OpenType features set on the font)", len(strs)), strs),
 			familyRenderAsPath(fmt.Sprintf("RenderAsPath: %d strings of at most 4 tokens x 3 fonts x %d layouts", len(strs), len(kinds)), strs),
 			familySingle(fmt.Sprintf("PDF, one text: %d strings of at most 4 tokens x 3 fonts x %d layouts x SubsetFonts on/off", len(strs), len(kinds)), strs, allKinds(), both),
 			familySingle(fmt.Sprintf("PDF, ToUnicode ranges and W ranges: %d strings over {a,b,c}, digit runs and all pairs of consecutive code points (ASCII, Latin-1 letters) x 3 fonts x NewTextLine x SubsetFonts on/off", len(rangeStrings())), rangeStrings(), []int{kindLine}, both),
@@ -42,7 +42,7 @@ func families(tier string) []fw.Family {
 	exactly3 := strs[len(strs2):]
 	return []fw.Family{
 		familySubsetter(),
-		familyToPath(fmt.Sprintf("text to paths: %d strings of at most 3 tokens x 3 fonts x 4 faces (plain, with offsets, each also faux italic)", len(strs)), strs),
+		familyToPath(fmt.Sprintf("text to paths: %d strings of at most 3 tokens x 3 fonts x 6 faces (plain, with offsets, each also faux italic, two with OpenType features set on the font)", len(strs)), strs),
 		familyRenderAsPath(fmt.Sprintf("RenderAsPath: %d strings of at most 3 tokens x 3 fonts x %d layouts", len(strs), len(kinds)), strs),
 		familySingle(fmt.Sprintf("PDF, one text, SubsetFonts on: %d strings of at most 3 tokens x 3 fonts x %d layouts", len(strs), len(kinds)), strs, allKinds(), []bool{true}),
 		familySingle(fmt.Sprintf("PDF, one text, SubsetFonts off: %d strings of at most 2 tokens x 3 fonts x %d layouts", len(strs2), len(kinds)), strs2, allKinds(), []bool{false}),
